@@ -371,6 +371,8 @@ fn cmd_replay(args: &[String]) -> i32 {
             return code;
         }
         "filename" => props::seq::replay_file_name(rp),
+        "pvote" => props::pvote::replay(rp),
+        "maxbatch" => props::maxbatch::replay(rp),
         "c09" => props::image::replay(rp, true),
         "c10" => props::image::replay(rp, false),
         "c07" => props::cache::replay(rp, true),
